@@ -25,7 +25,7 @@ type KafkaMessageReceiver struct {
 	partitionCount int
 	initialized    bool
 	initMutex      sync.RWMutex
-	partitionEOFs  int
+	partitionEOFs  map[int32]struct{} // partitions that have reported EOF at least once
 	initBuffer     map[string]*wireMessage
 }
 
@@ -178,8 +178,12 @@ func (r *KafkaMessageReceiver) processEvent(ev kafka.Event) {
 	case *kafka.Message:
 		r.processMessage(e.Value)
 	case kafka.PartitionEOF:
-		r.partitionEOFs++
-		if !r.initialized && r.partitionEOFs >= r.partitionCount {
+		// EOF is reported again each time the consumer catches up with a partition, so count partitions, not events
+		if r.partitionEOFs == nil {
+			r.partitionEOFs = make(map[int32]struct{})
+		}
+		r.partitionEOFs[e.Partition] = struct{}{}
+		if !r.initialized && len(r.partitionEOFs) >= r.partitionCount {
 			r.initMutex.Lock()
 			defer r.initMutex.Unlock()
 
